@@ -1373,6 +1373,114 @@ func checkPartitionClamp(p *Prog, r *Roles, res *Result, rule string) {
 				startP, endP = gp.Params[2], gp.Params[3]
 			}
 		}
+		// judge: is v, evaluated on the way into block at, the requested bound or the clamp of an engine border with it?
+		// A value chosen between several (phi), and one computed by a helper of the repository that is handed the bound,
+		// is judged alternative by alternative, each under the branch conditions it is chosen under.
+		var judge func(v ssa.Value, at *ssa.BasicBlock, bound ssa.Value, wantKind, what string, depth int) (string, bool)
+		judge = func(v ssa.Value, at *ssa.BasicBlock, bound ssa.Value, wantKind, what string, depth int) (string, bool) {
+			v = p.resolveDeep(v)
+			if v == bound {
+				return "the requested bound itself", true
+			}
+			if depth > 6 {
+				return "the partition border is not clamped to the requested interval", false
+			}
+			if phi, ok := v.(*ssa.Phi); ok {
+				for i, e := range phi.Edges {
+					if why, ok := judge(e, phi.Block().Preds[i], bound, wantKind, what, depth+1); !ok {
+						return why, false
+					}
+				}
+				return "every alternative is the requested bound or its clamp", true
+			}
+			// result of a helper
+			var hc *ssa.Call
+			idx := 0
+			if ex, ok := v.(*ssa.Extract); ok {
+				hc, _ = ex.Tuple.(*ssa.Call)
+				idx = ex.Index
+			} else if c, ok := v.(*ssa.Call); ok && isBytesMinMax(c.Common().StaticCallee()) == "" {
+				hc = c
+			}
+			if hc != nil {
+				sc := hc.Common().StaticCallee()
+				if sc == nil || sc.Blocks == nil || hc.Common().IsInvoke() || sc.Pkg == nil || !strings.HasPrefix(sc.Pkg.Pkg.Path(), modPath) {
+					return "the partition border is not clamped to the requested interval", false
+				}
+				var bp *ssa.Parameter
+				for i, a := range hc.Common().Args {
+					if p.resolveDeep(a) == bound && i < len(sc.Params) {
+						bp = sc.Params[i]
+					}
+				}
+				if bp == nil {
+					return "the partition border is computed without the requested bound", false
+				}
+				n := 0
+				for _, blk := range sc.Blocks {
+					ret, ok := blk.Instrs[len(blk.Instrs)-1].(*ssa.Return)
+					if !ok || blk.Comment == "recover" || idx >= len(ret.Results) {
+						continue
+					}
+					n++
+					if why, ok := judge(ret.Results[idx], blk, bp, wantKind, what, depth+1); !ok {
+						return why, false
+					}
+				}
+				if n == 0 {
+					return "the partition border is not clamped to the requested interval", false
+				}
+				return wantKind + "(engine border, requested bound) in " + funcName(sc), true
+			}
+			if c, ok := v.(*ssa.Call); ok {
+				if k := isBytesMinMax(c.Common().StaticCallee()); k != "" {
+					hasBound := false
+					for _, a := range c.Common().Args {
+						if p.resolveDeep(a) == bound {
+							hasBound = true
+						}
+					}
+					if k == wantKind && hasBound && wantKind == "min" {
+						// an empty engine end border means "unbounded": min would turn it into the smallest key, so
+						// the clamp must run only where the border is known to be non-empty
+						guarded := false
+						facts := dominatingFacts(c.Block())
+						if at != nil && at != c.Block() {
+							facts = append(facts, dominatingFacts(at)...)
+						}
+						for _, a := range c.Common().Args {
+							if p.resolveDeep(a) == bound {
+								continue
+							}
+							ak := accessPath(a)
+							for _, cf := range facts {
+								if cf.X == nil {
+									continue
+								}
+								lc, ok := resolve(cf.X).(*ssa.Call)
+								if !ok {
+									continue
+								}
+								if bi, ok := lc.Common().Value.(*ssa.Builtin); !ok || bi.Name() != "len" || accessPath(lc.Common().Args[0]) != ak {
+									continue
+								}
+								if isZeroConst(cf.Y) && ((cf.Op == token.NEQ && cf.Want) || (cf.Op == token.EQL && !cf.Want) || (cf.Op == token.GTR && cf.Want)) {
+									guarded = true
+								}
+							}
+						}
+						if !guarded {
+							return "min(engine end border, requested end) without the guard len(engine border) != 0: the open end of the last region (empty key) becomes the smallest key and the partition covers nothing", false
+						}
+					}
+					if k == wantKind && hasBound {
+						return wantKind + "(engine border, requested bound)", true
+					}
+					return fmt.Sprintf("the partition %s is %s(..) of the engine border instead of %s(engine border, requested %s): the partition reaches outside the requested interval and range reads return keys beyond it", strings.ToLower(what), k, wantKind, strings.ToLower(what)), false
+				}
+			}
+			return "the partition border is not clamped to the requested interval", false
+		}
 		check := func(fld *types.Var, bound *ssa.Parameter, wantKind, what string) {
 			n := 0
 			for _, st := range p.fields().stores[fld] {
@@ -1381,58 +1489,11 @@ func checkPartitionClamp(p *Prog, r *Roles, res *Result, rule string) {
 				}
 				n++
 				construct := fmt.Sprintf("%s.GetPartitions: Partition.%s #%d", short, what, n)
-				v := p.resolveDeep(st.Val)
-				if v == ssa.Value(bound) {
-					res.ok(rule, construct, p.pos(st.Pos()), "the requested bound itself")
-					continue
+				if why, ok := judge(st.Val, st.Block(), ssa.Value(bound), wantKind, what, 0); ok {
+					res.ok(rule, construct, p.pos(st.Pos()), why)
+				} else {
+					res.bad(rule, construct, p.pos(st.Pos()), why)
 				}
-				if c, ok := v.(*ssa.Call); ok {
-					if k := isBytesMinMax(c.Common().StaticCallee()); k != "" {
-						hasBound := false
-						for _, a := range c.Common().Args {
-							if p.resolveDeep(a) == ssa.Value(bound) {
-								hasBound = true
-							}
-						}
-						if k == wantKind && hasBound && wantKind == "min" {
-							// an empty engine end border means "unbounded": min would turn it into the smallest key, so
-							// the clamp must run only where the border is known to be non-empty
-							guarded := false
-							for _, a := range c.Common().Args {
-								if p.resolveDeep(a) == ssa.Value(bound) {
-									continue
-								}
-								ak := accessPath(a)
-								for _, cf := range dominatingFacts(st.Block()) {
-									if cf.X == nil {
-										continue
-									}
-									lc, ok := resolve(cf.X).(*ssa.Call)
-									if !ok {
-										continue
-									}
-									if bi, ok := lc.Common().Value.(*ssa.Builtin); !ok || bi.Name() != "len" || accessPath(lc.Common().Args[0]) != ak {
-										continue
-									}
-									if isZeroConst(cf.Y) && ((cf.Op == token.NEQ && cf.Want) || (cf.Op == token.EQL && !cf.Want) || (cf.Op == token.GTR && cf.Want)) {
-										guarded = true
-									}
-								}
-							}
-							if !guarded {
-								res.bad(rule, construct, p.pos(st.Pos()), "min(engine end border, requested end) without the guard len(engine border) != 0: the open end of the last region (empty key) becomes the smallest key and the partition covers nothing")
-								continue
-							}
-						}
-						if k == wantKind && hasBound {
-							res.ok(rule, construct, p.pos(st.Pos()), wantKind+"(engine border, requested bound)")
-							continue
-						}
-						res.bad(rule, construct, p.pos(st.Pos()), fmt.Sprintf("the partition %s is %s(..) of the engine border instead of %s(engine border, requested %s): the partition reaches outside the requested interval and range reads return keys beyond it", strings.ToLower(what), k, wantKind, strings.ToLower(what)))
-						continue
-					}
-				}
-				res.bad(rule, construct, p.pos(st.Pos()), "the partition border is not clamped to the requested interval")
 			}
 		}
 		check(startF, startP, "max", "Start")
